@@ -252,7 +252,10 @@ pub fn run(case: &Case, _known: &BTreeSet<String>) -> Outcome {
     let muts = all_mutations(&base, case, &mut rng, false);
     let mut hashes: BTreeSet<u64> = BTreeSet::new();
     let mut accepted = 0u64;
+    let mut marker = Case::new("C05", "single-image", case.version);
+    marker.params.insert("seed".into(), case.param("seed", 1));
     for (desc, kind, img) in &muts {
+        crate::subcase::set(&marker, img);
         let p = probe(img, bufsize);
         o.stats.sub_runs += 1;
         o.stats.boundary_checks += 1;
